@@ -74,9 +74,34 @@ def after_return_cases(tier, seed):
                 i += 1
 
 
+def repeated_record_cases(tier, seed):
+    """The same kind of record for the same operation more than once within ONE invocation (a step / condition in a branch retrying
+    twice while a sibling keeps the invocation alive): each of them has to be accepted before the branch parks on it, and the
+    invocation may report PENDING only with the last one accepted."""
+    i = 0
+    for kind in ("par", "map"):
+        for what in ("step", "wfc"):
+            for nrep in (2, 3):
+                if what == "step":
+                    op = {"k": "step", "script": [{"do": "fail", "cls": "ValueError", "msg": "f%d" % k} for k in range(nrep)] + [{"do": "ok", "val": 7}],
+                          "retry": {"decisions": [("retry", 1)] * nrep + [("stop",)]}}
+                else:
+                    op = {"k": "wfc", "init": 0, "decisions": [("cont", 1)] * nrep + [("stop",)]}
+                b0 = {"body": [op, {"k": "step", "val": "next"}]}
+                b1 = {"body": [{"k": "step", "script": [{"do": "ok", "val": "busy", "gate": "busy"}]}]}
+                node = {"k": "par", "branches": [b0, b1], "cfg": {"preset": "all_completed"}} if kind == "par" else {"k": "map", "items": [0, 1], "per_item": [b0, b1], "body": [], "cfg": None}
+                # the sibling leaves once the branch has parked for the nrep-th time: the invocation then reports PENDING on that last record
+                yield {"label": "repeated-retry-records-in-one-invocation|%s|%s" % (kind, what), "prog": {"body": [node, {"k": "step", "val": "end"}]}, "prog_seed": 23900 + i,
+                       "pattern": {"p": "plain"}, "max_inv": 12, "world": {"complete": {}, "timers": "all"},
+                       "holds": [{"match": {"kind": "gate", "name": "busy"}, "until": {"event": {"kind": "susp", "path": "0/b0/0", "count": nrep}}, "delay_ms": 2}],
+                       "opts": {"idle_s": 1.0, "hang_s": 3.0}}
+                i += 1
+
+
 def explicit_all(tier, seed):
     yield from explicit(tier, seed)
     yield from after_return_cases(tier, seed)
+    yield from repeated_record_cases(tier, seed)
 
 
 SPEC = Spec(
